@@ -479,6 +479,7 @@ package core
 //@   ensures [macro-first] old(len(keys.macroKeys)) > 0 ==> result0 == emod(old(keys.macroKeys[0]), 256) && keys.macroKeys == old(keys.macroKeys)[1:] && keys.buf == old(keys.buf)
 //@   ensures old(len(keys.macroKeys)) == 0 && old(len(keys.buf)) > 0 ==> result0 == old(keys.buf[0]) && keys.buf == old(keys.buf)[1:] && keys.macroKeys == old(keys.macroKeys)
 //@   ensures result1 ==> keys.buf == old(keys.buf) && keys.macroKeys == old(keys.macroKeys)
+//@   ensures @C18 [macro-key-is-its-encoding] old(len(keys.macroKeys)) > 0 ==> unit(result0) == enc1(old(keys.macroKeys[0]))
 
 //@ func PopForce
 //@   props C03 C05 C01
